@@ -342,6 +342,26 @@ func (ci *index) findByIPWithoutZone(ip netip.Addr) (c *Persistent) {
 	return nil
 }
 
+// findByIPLoose is like [index.findByIP], but an address identifier that only
+// differs from ip in its zone is still an exact one and so takes precedence
+// over the subnets.  An identifier that is equal to ip takes precedence over
+// those.
+func (ci *index) findByIPLoose(ip netip.Addr) (c *Persistent, found bool) {
+	if !ip.IsValid() {
+		return nil, false
+	}
+
+	ip = ip.Unmap()
+	if _, found = ci.ipToUID[ip]; !found {
+		c = ci.findByIPWithoutZone(ip)
+		if c != nil {
+			return c, true
+		}
+	}
+
+	return ci.findByIP(ip)
+}
+
 // remove removes information about persistent client from the index.  c must be
 // non-nil.
 func (ci *index) remove(c *Persistent) {
